@@ -93,15 +93,17 @@ class ConstMatrix:
         return self.m
 
 
-def make_data(n, steps, omega, delta, inter, bad=None, spe=0.0, dt=10):
+def make_data(n, omega_rows, delta_rows, phi_rows, inter, bad=None, spe=0.0, dt=10):
+    """hand-built SequenceData: one row of omega/delta/phi per time step, one column per atom"""
     import torch
     from emu_base import SequenceData, HamiltonianType
 
     c = torch.complex128
+    steps = len(omega_rows)
     M = torch.tensor(inter, dtype=torch.float64).reshape(n, n)
     return SequenceData(
-        omega=torch.tensor([list(omega)] * steps, dtype=c), delta=torch.tensor([list(delta)] * steps, dtype=c),
-        phi=torch.zeros(steps, n, dtype=c), interaction_matrix=ConstMatrix(M),
+        omega=torch.tensor(omega_rows, dtype=c).reshape(steps, n), delta=torch.tensor(delta_rows, dtype=c).reshape(steps, n),
+        phi=torch.tensor(phi_rows, dtype=c).reshape(steps, n), interaction_matrix=ConstMatrix(M),
         qubit_ids=tuple(f"q{a}" for a in range(n)), bad_atoms=tuple(bad or [False] * n), lindblad_ops=[],
         state_prep_error=spe, target_times=[float(dt * k) for k in range(steps + 1)], eigenstates=["r", "g"],
         hamiltonian_type=HamiltonianType.Rydberg)
@@ -130,38 +132,63 @@ def gen_routing_case(rng, with_bad):
     if with_bad:
         for b in rng.sample(range(n), rng.randint(1, n - 3) if n > 3 else 1):
             bad[b] = True
-    return {"n": n, "perm": perm, "omega": [10 + 3 * a for a in range(n)], "delta": [-(20 + a) for a in range(n)],
-            "inter": inter, "bad": bad, "with_bad": with_bad}
+    steps = 3
+    return {"n": n, "perm": perm, "inter": inter, "bad": bad, "with_bad": with_bad,
+            # pairwise distinct per atom, different in every row (time step), different between the arrays
+            "omega": [[10 + 3 * a + 100 * t for a in range(n)] for t in range(steps)],
+            "delta": [[-(20 + a) - 50 * t for a in range(n)] for t in range(steps)],
+            "phi": [[40 + 2 * a + 7 * t for a in range(n)] for t in range(steps)]}
+
+
+DRIVES = ("omega", "delta", "phi")
 
 
 def real_routing(c):
+    """what make_H and update_H actually receive (all three drive arrays, every time step)"""
     from pulser.backend import Occupation
     from emu_mps.mps_backend_impl import create_impl
 
-    data = make_data(c["n"], 2, c["omega"], c["delta"], c["inter"], bad=c["bad"], spe=0.1 if c["with_bad"] else 0.0)
+    data = make_data(c["n"], c["omega"], c["delta"], c["phi"], c["inter"], bad=c["bad"],
+                     spe=0.1 if c["with_bad"] else 0.0)
     cfg = make_config([Occupation(evaluation_times=[1.0])], optimize_qubit_ordering=True)
+    rows = {k: [] for k in DRIVES}
     with Forced(c["perm"]) as f:
         impl = create_impl(data, cfg)
         impl.init()
         filt = impl.well_prepared_qubits_filter
+        for t in range(len(c["omega"])):
+            for which in ("update_H", "update_H_no_noise"):
+                impl._timestep_index = t
+                f.update_H.clear()
+                getattr(impl, which)()
+                got = {k: [int(round(x.real)) for x in f.update_H[-1][k].tolist()] for k in DRIVES}
+                if which == "update_H":
+                    for k in DRIVES:
+                        rows[k].append(got[k])
+                elif any(got[k] != rows[k][-1] for k in DRIVES):
+                    rows["omega"][-1] = ["update_H and update_H_no_noise disagree", got]
     return {"inter": [[int(round(float(x))) for x in row] for row in f.make_H[0]],
-            "omega": [int(round(x.real)) for x in f.update_H[-1]["omega"].tolist()],
-            "delta": [int(round(x.real)) for x in f.update_H[-1]["delta"].tolist()],
+            "omega": rows["omega"], "delta": rows["delta"], "phi": rows["phi"],
             "filter": None if filt is None else [bool(x) for x in filt]}
 
 
 def routing_expr(c):
     p = nl(c["perm"])
-    return (f"(site_interaction {p} {zm(c['inter'])}, site_drive legacy {p} {zl(c['omega'])}, "
-            f"site_drive fixed {p} {zl(c['omega'])}, site_drive legacy {p} {zl(c['delta'])}, "
-            f"site_drive fixed {p} {zl(c['delta'])}, site_bad legacy {p} {bl(c['bad'])}, site_bad fixed {p} {bl(c['bad'])})")
+    allrows = [r for k in DRIVES for r in c[k]]
+    leg = "[" + "; ".join(f"site_drive legacy {p} {zl(r)}" for r in allrows) + "]"
+    fix = "[" + "; ".join(f"site_drive fixed {p} {zl(r)}" for r in allrows) + "]"
+    return (f"(site_interaction {p} {zm(c['inter'])}, {leg}, {fix}, "
+            f"site_bad legacy {p} {bl(c['bad'])}, site_bad fixed {p} {bl(c['bad'])})")
 
 
 def routing_compare(c, real, mv, flags):
-    """narrow the set of switch values compatible with the observation; returns error text or None"""
-    inter, od_l, od_f, dd_l, dd_f, b_l, b_f = (okv(x) for x in mv)
-    if any(x is None for x in (inter, od_l, od_f, dd_l, dd_f, b_l, b_f)):
+    """narrow the set of switch values compatible with the observation; returns error text or None.
+    ALL rows of omega, delta and phi must follow the same switch value."""
+    inter, b_l, b_f = okv(mv[0]), okv(mv[3]), okv(mv[4])
+    d_l, d_f = [okv(x) for x in mv[1]], [okv(x) for x in mv[2]]
+    if inter is None or b_l is None or b_f is None or any(x is None for x in d_l + d_f):
         return f"model raised: {mv}"
+    real_rows = [r for k in DRIVES for r in real[k]]
     ok = set()
     for mask_v, bad in ((False, b_l), (True, b_f)):
         keep = [not b for b in bad]
@@ -173,11 +200,13 @@ def routing_compare(c, real, mv, flags):
         exp_inter = [[inter[i][j] for j in range(c["n"]) if keep[j]] for i in range(c["n"]) if keep[i]]
         if exp_inter != real["inter"]:
             continue
-        for drive_v, om, de in ((False, od_l, dd_l), (True, od_f, dd_f)):
-            if [x for x, k in zip(om, keep) if k] == real["omega"] and [x for x, k in zip(de, keep) if k] == real["delta"]:
+        for drive_v, rows in ((False, d_l), (True, d_f)):
+            if len(rows) == len(real_rows) and all([x for x, k in zip(m, keep) if k] == r for m, r in zip(rows, real_rows)):
                 ok.add((drive_v, mask_v))
     if not ok:
-        return f"no variant reproduces the observed routing: real={real} model={mv}"
+        flags["routing"] = set()
+        return (f"no variant reproduces the observed routing (interaction matrix, every row of omega/delta/phi, "
+                f"bad-atom filter): case={c} real={real}")
     flags["routing"] = ok if flags["routing"] is None else (flags["routing"] & ok)
     if not flags["routing"]:
         return f"variants inconsistent across cases at {c}"
@@ -282,13 +311,40 @@ def decode_results(v):
 
 
 # ---- C. end-to-end scenario with analytic expectation ------------------------------------------
+T_STEP = 0.01  # one 10 ns step, in us
+
+
 def scenario(n, perm, a_pi, a_half):
     """atom a_pi gets a pi pulse, a_half a pi/2 pulse, no interactions: occupations 1, 0.5, 0 exactly"""
-    T = 0.02  # 2 steps of 10 ns, in us
+    T = 2 * T_STEP
     omega = [0.0] * n
     omega[a_pi] = math.pi / T
     omega[a_half] = math.pi / (2 * T)
     return {"n": n, "perm": perm, "a_pi": a_pi, "a_half": a_half, "omega": omega}
+
+
+def ramsey_scenario(n, perm, phis):
+    """every atom gets two pi/2 pulses (one per 10 ns step); the second pulse of atom a has phase phis[a]
+    (per-atom, time-varying phi), no interactions, no detuning: occupation of atom a = cos^2(phis[a]/2)"""
+    w = (math.pi / 2) / T_STEP
+    return {"kind": "ramsey", "n": n, "perm": perm, "phis": list(phis),
+            "omega_rows": [[w] * n, [w] * n], "phi_rows": [[0.0] * n, list(phis)],
+            "expected_occ": [math.cos(p / 2) ** 2 for p in phis]}
+
+
+def norm_scenario(sc):
+    """all scenario kinds -> omega_rows / phi_rows / expected_occ (older corpus entries have only `omega`)"""
+    sc = dict(sc)
+    n = sc["n"]
+    if "omega_rows" not in sc:
+        sc["kind"] = "pulse"
+        sc["omega_rows"] = [list(sc["omega"]), list(sc["omega"])]
+        sc["phi_rows"] = [[0.0] * n, [0.0] * n]
+        occ = [0.0] * n
+        occ[sc["a_pi"]] = 1.0
+        occ[sc["a_half"]] = 0.5
+        sc["expected_occ"] = occ
+    return sc
 
 
 def observables():
@@ -318,8 +374,10 @@ def run_scenario(sc, mode):
     from emu_mps.mps_backend_impl import create_impl
     import pathlib
 
+    sc = norm_scenario(sc)
     n = sc["n"]
-    data = make_data(n, 2, sc["omega"], [0.0] * n, [[0.0] * n for _ in range(n)])
+    data = make_data(n, sc["omega_rows"], [[0.0] * n for _ in sc["omega_rows"]], sc["phi_rows"],
+                     [[0.0] * n for _ in range(n)])
     cfg = make_config(observables(), optimize_qubit_ordering=True, **({} if mode == "run" else {"autosave_dt": 1e6}))
     with Forced(sc["perm"]):
         if mode == "run":
@@ -341,10 +399,9 @@ def run_scenario(sc, mode):
 
 
 def expected_summary(sc):
+    sc = norm_scenario(sc)
     n = sc["n"]
-    occ = [0.0] * n
-    occ[sc["a_pi"]] = 1.0
-    occ[sc["a_half"]] = 0.5
+    occ = list(sc["expected_occ"])
     corr = [[(occ[i] if i == j else occ[i] * occ[j]) for j in range(n)] for i in range(n)]
     return {"atom_order": [f"q{a}" for a in range(n)], "occupation": occ, "corr": [x for r in corr for x in r]}
 
@@ -354,12 +411,13 @@ def close(a, b, tol=1e-4):
 
 
 def bits_ok(bits, sc):
-    n = sc["n"]
+    """atoms whose occupation is exactly 1 (0) must read '1' ('0') in every sampled bitstring"""
+    occ = norm_scenario(sc)["expected_occ"]
     for k in bits:
-        for i in range(n):
-            if i == sc["a_pi"] and k[i] != "1":
+        for i, p in enumerate(occ):
+            if p > 1 - 1e-9 and k[i] != "1":
                 return False
-            if i not in (sc["a_pi"], sc["a_half"]) and k[i] != "0":
+            if p < 1e-9 and k[i] != "0":
                 return False
     return True
 
@@ -379,8 +437,8 @@ def judge_scenario(ctx, sc, mode, s, run_summary=None):
     if s["atom_order"] != exp["atom_order"]:
         ctx.violation("atom_order is not the register order", dict(rp, finding_key="atom-order-not-register-order"))
     if not close(s["occupation"], exp["occupation"]) or not close(s["corr"], exp["corr"]) or not bits_ok(s["bits"], sc):
-        ctx.violation("with qubit reordering the per-atom drive acts on the wrong atom: occupation / correlations / "
-                      "bitstrings differ from the analytic register-order values",
+        ctx.violation("with qubit reordering a per-atom drive (amplitude, detuning or phase) acts on the wrong atom: "
+                      "occupation / correlations / bitstrings differ from the analytic register-order values",
                       dict(rp, finding_key="F-03-drives-not-permuted"))
     if not close(s["occupation_b"], s["occupation"]) or not close(s["corr_x"], s["corr"]) or \
             bits_ok(s["bits_s"], sc) != bits_ok(s["bits"], sc):
@@ -467,6 +525,7 @@ def run(ctx):
             hist["routing/" + ("bad" if c["with_bad"] else "plain")] = hist.get("routing/" + ("bad" if c["with_bad"] else "plain"), 0) + 1
             if r is None:
                 hist["routing/raised"] = hist.get("routing/raised", 0) + 1
+                derr["routing"] = derr["routing"] or f"the backend raised while being set up for a routing case: {c}"
                 continue
             e = routing_compare(c, r, parse(outs[i]), flags)
             if e and not derr["routing"]:
@@ -496,28 +555,35 @@ def run(ctx):
 
     # C. end-to-end scenarios (always the corpus witnesses first)
     scs = [c["scenario"] for c in corpus if c.get("stage") == "scenario"]
-    for _ in range(ctx.n(2, 60)):
+    PH = [0.0, math.pi, math.pi / 3, 2 * math.pi / 3, math.pi / 2, 1.0, 2.5, 0.4]
+    for k in range(ctx.n(3, 60)):
         n = ctx.rng.randint(3, ctx.n(5, 8))
         perm = list(range(n))
         while perm == list(range(n)):
             ctx.rng.shuffle(perm)
-        a, b = ctx.rng.sample(range(n), 2)
-        scs.append(scenario(n, perm, a, b))
-    scs.append(scenario(3, [0, 1, 2], 1, 2))  # identity: must hold in every variant
+        if k % 2 == 0:  # per-atom, time-varying phases
+            scs.append(ramsey_scenario(n, perm, ctx.rng.sample(PH, n)))
+        else:
+            a, b = ctx.rng.sample(range(n), 2)
+            scs.append(scenario(n, perm, a, b))
+    # identity: must hold in every variant (also validates the closed forms on the real code)
+    scs.append(scenario(3, [0, 1, 2], 1, 2))
+    scs.append(ramsey_scenario(4, [0, 1, 2, 3], [0.0, math.pi, math.pi / 3, 1.0]))
     resume_differs = None
     for k, sc in enumerate(scs):
         s = run_scenario(sc, "run")
         judge_scenario(ctx, sc, "run", s)
         ctx.count_case({"stage": "scenario", **sc}, sc["perm"] != sorted(sc["perm"]))
-        hist["scenario/run"] = hist.get("scenario/run", 0) + 1
-        if k < ctx.n(1, 8) and sc["perm"] != sorted(sc["perm"]):
+        kind = sc.get("kind", "pulse")
+        hist[f"scenario/run/{kind}"] = hist.get(f"scenario/run/{kind}", 0) + 1
+        if k < ctx.n(3, 10) and sc["perm"] != sorted(sc["perm"]):
             s2 = run_scenario(sc, "resume")
             n_before = len(ctx.violations) + len(ctx.known_lines)
             judge_scenario(ctx, sc, "resume", s2, run_summary=s)
             differs = (len(ctx.violations) + len(ctx.known_lines)) > n_before or \
                 s2["atom_order"] != s["atom_order"] or not close(s2["occupation"], s["occupation"])
             resume_differs = differs if resume_differs is None else (resume_differs or differs)
-            hist["scenario/resume"] = hist.get("scenario/resume", 0) + 1
+            hist[f"scenario/resume/{kind}"] = hist.get(f"scenario/resume/{kind}", 0) + 1
 
     # which variant does the code follow?
     rv = sorted(flags["routing"] or [])
@@ -533,10 +599,10 @@ def run(ctx):
     if determined and not is_fixed and not ctx.violations and not ctx.known_lines:
         ctx.violation("the code follows a variant for which C03 is refuted (see C03_legacy_*_refuted) but no end-to-end "
                       "witness was produced", {"variant": variant, "finding_key": "variant-not-fixed"}, found_input=False)
-    ctx.rule = ("routing: forced random permutations n=2..6 with distinct per-atom omega/delta and distinct interaction "
-                "entries, with and without bad atoms; results: random Results objects (bare and suffixed tags, 1-3 times); "
-                "whitelist: every pulser observable class; scenarios: pi / pi-half pulses on single atoms, analytic "
-                "expectation, run and resume; non-trivial = non-identity permutation")
+    ctx.rule = ("routing: forced random permutations n=2..6; every row (3 time steps) of omega, delta and phi with pairwise "
+                "distinct per-atom values and distinct interaction entries, with and without bad atoms; results: random Results objects (bare and suffixed tags, 1-3 times); "
+                "whitelist: every pulser observable class; scenarios: pi / pi-half pulses on single atoms and Ramsey "
+                "sequences with per-atom time-varying phases, closed-form expectation, run and resume; non-trivial = non-identity permutation")
     ctx.trusted_base += ["hand model Model/QubitOrder.v (validated by the correspondences of this run)",
                          "observation points: arguments of make_H/update_H, well_prepared_qubits_filter, Results returned"]
     ctx.assumptions += ["end-to-end scenarios use non-interacting atoms with exact pi / pi-half pulses (tolerance 1e-4, "
